@@ -578,6 +578,224 @@ Proof.
 Qed.
 
 (* ------------------------------------------------------------------ *)
+(* no comparison against a literal raises an evaluation error (incomparable values are a FAIL, not an error) *)
+
+Section PvInd.
+Variable P : pv -> Prop.
+Hypothesis Hnull : forall p, P (PNull p).
+Hypothesis Hstr : forall p s, P (PString p s).
+Hypothesis Hre : forall p s, P (PRegex p s).
+Hypothesis Hbool : forall p b, P (PBool p b).
+Hypothesis Hint : forall p z, P (PInt p z).
+Hypothesis Hfloat : forall p f, P (PFloat p f).
+Hypothesis Hchar : forall p c, P (PChar p c).
+Hypothesis Hlist : forall p l, Forall P l -> P (PList p l).
+Hypothesis Hmap : forall p ks vals, Forall P (map snd vals) -> P (PMap p ks vals).
+Hypothesis Hri : forall p a b i, P (PRangeInt p a b i).
+Hypothesis Hrf : forall p a b i, P (PRangeFloat p a b i).
+Hypothesis Hrc : forall p a b i, P (PRangeChar p a b i).
+
+Fixpoint pv_ind' (v : pv) : P v :=
+  match v with
+  | PNull p => Hnull p
+  | PString p s => Hstr p s
+  | PRegex p s => Hre p s
+  | PBool p b => Hbool p b
+  | PInt p z => Hint p z
+  | PFloat p f => Hfloat p f
+  | PChar p c => Hchar p c
+  | PList p l => Hlist p l ((fix go (l : list pv) : Forall P l :=
+                              match l with [] => Forall_nil P | x :: r => Forall_cons x (pv_ind' x) (go r) end) l)
+  | PMap p ks vals => Hmap p ks vals ((fix go (l : list (string * pv)) : Forall P (map snd l) :=
+                                         match l with [] => Forall_nil P | (k, x) :: r => Forall_cons x (pv_ind' x) (go r) end) vals)
+  | PRangeInt p a b i => Hri p a b i
+  | PRangeFloat p a b i => Hrf p a b i
+  | PRangeChar p a b i => Hrc p a b i
+  end.
+End PvInd.
+
+Local Transparent compare_eq of_cmp match_value contained_in value_in string_in str_in.
+
+Lemma partial_eq_no_err a : forall b e, partial_eq re a b <> Err e.
+Proof.
+  induction a as [p|p s|p s|p b0|p z|p f|p c|p l IH|p ks vals IH|p lo hi i|p lo hi i|p lo hi i] using pv_ind'; intros b e;
+    try solve [destruct b; cbn; try discriminate; unfold regex_partial_eq;
+               repeat match goal with |- match ?x with _ => _ end <> _ => destruct x end; discriminate].
+  - (* list *)
+    destruct b; cbn; try discriminate. destruct (Nat.eqb _ _); [|discriminate].
+    revert l0. induction IH as [|x l Hx IH IHl]; intros l0; [destruct l0; discriminate|].
+    destruct l0 as [|y l0]; [discriminate|]. cbn.
+    destruct (partial_eq re x y) as [[|]| | | |] eqn:E; cbn; try discriminate; [apply IHl|exfalso; eapply Hx; exact E].
+  - (* struct *)
+    destruct b; cbn; try discriminate. destruct (Nat.eqb _ _); [|discriminate].
+    induction vals as [|[k v] vals IHv]; [discriminate|]. cbn in IH. inversion IH as [|? ? Hv Hrest]; subst. cbn.
+    destruct (map_get k vals0) as [v2|]; [|discriminate].
+    destruct (partial_eq re v v2) as [[|]| | | |] eqn:E; cbn; try discriminate; [apply IHv, Hrest|exfalso; eapply Hv; exact E].
+Qed.
+
+Lemma contains_no_err l x e : contains_pv re l x <> Err e.
+Proof.
+  induction l as [|y l IH]; cbn; [discriminate|].
+  destruct (partial_eq re y x) as [[|]| | | |] eqn:E; cbn; try discriminate; [exact IH|exfalso; eapply partial_eq_no_err; exact E].
+Qed.
+
+Lemma not_contained_no_err l other e : not_contained re l other <> Err e.
+Proof.
+  revert e. induction l as [|x l IH]; intros e; cbn; [discriminate|].
+  destruct (contains_pv re other x) as [c| | | |] eqn:E; cbn; try discriminate; [|exfalso; eapply contains_no_err; exact E].
+  destruct (not_contained re l other) as [r| | | |] eqn:E2; cbn; try discriminate. exfalso; exact (IH _ eq_refl).
+Qed.
+
+Lemma match_value_no_err f l r e : match_value f l r <> Err e.
+Proof. unfold match_value. destruct (f l r) as [[|]|[]| | |]; discriminate. Qed.
+
+Lemma omapM_no_err {A B} (f : A -> outcome B) l e : (forall x e', f x <> Err e') -> omapM f l <> Err e.
+Proof.
+  intros H. revert e. induction l as [|x l IH]; intros e; cbn; [discriminate|].
+  destruct (f x) as [y| | | |] eqn:E; cbn; try discriminate; [|exfalso; eapply H; exact E].
+  destruct (omapM f l) as [r| | | |] eqn:E2; cbn; try discriminate. exfalso. exact (IH _ eq_refl).
+Qed.
+
+Ltac no_err_base :=
+  match goal with
+  | |- obind ?m _ <> Err _ => let E := fresh "E" in destruct m eqn:E; cbn [obind]; try discriminate
+  | |- (if ?c then _ else _) <> Err _ => destruct c
+  | |- match ?x with _ => _ end <> Err _ => destruct x
+  | H : omapM _ _ = Err _ |- _ => exfalso; revert H; apply omapM_no_err; intros
+  | H : match_value _ _ _ = Err _ |- _ => exfalso; revert H; apply match_value_no_err
+  | H : not_contained _ _ _ = Err _ |- _ => exfalso; revert H; apply not_contained_no_err
+  | H : contains_pv _ _ _ = Err _ |- _ => exfalso; revert H; apply contains_no_err
+  | |- match_value _ _ _ <> Err _ => apply match_value_no_err
+  | |- omapM _ _ <> Err _ => apply omapM_no_err; intros
+  | |- Done _ <> Err _ => discriminate
+  | |- Panic _ <> Err _ => discriminate
+  | |- Unknown <> Err _ => discriminate
+  | H : (if ?c then _ else _) = Err _ |- _ => destruct c
+  end.
+
+Lemma contained_in_no_err l r e : contained_in re l r <> Err e.
+Proof. unfold contained_in. repeat no_err_base. Qed.
+
+Ltac no_err_step :=
+  first [ no_err_base
+        | match goal with
+          | H : contained_in _ _ _ = Err _ |- _ => exfalso; revert H; apply contained_in_no_err
+          | |- contained_in _ _ _ <> Err _ => apply contained_in_no_err
+          end ].
+
+Lemma negate_no_err op nl nr x e : negate_result re op nl nr x <> Err e.
+Proof. unfold negate_result, reverse_diff. repeat no_err_step. Qed.
+
+Lemma inner_any_no_err x rv e :
+  (fix any (rs : list pv) : outcome bool :=
+     match rs with
+     | [] => Done false
+     | y :: rs' => c <-- contained_in re x y ;; if is_success c then Done true else any rs'
+     end) rv <> Err e.
+Proof. induction rv as [|y rv IH]; [discriminate|]. repeat no_err_step. exact IH. Qed.
+
+Lemma eq_compare_no_err lhs rhs e : eq_compare re lhs rhs <> Err e.
+Proof. unfold eq_compare. repeat no_err_step. Qed.
+
+Lemma common_compare_no_err f lhs rhs e : common_compare f lhs rhs <> Err e.
+Proof. unfold common_compare. repeat no_err_step. Qed.
+
+Lemma in_compare_no_err lhs rhs e : in_compare re lhs rhs <> Err e.
+Proof.
+  unfold in_compare. destruct (is_literal lhs), (is_literal rhs); try solve [repeat no_err_step].
+  match goal with |- obind ?m _ <> _ => assert (K : forall e0, m <> Err e0) end.
+  { generalize (selected_values lhs). intros lv. induction lv as [|x lv IHlv]; intros e0; [discriminate|].
+    match goal with |- obind ?m _ <> _ => destruct m eqn:E1; cbn [obind]; try discriminate end.
+    - match goal with |- obind ?m _ <> _ => destruct m eqn:E2; cbn [obind]; try discriminate end.
+      exfalso. exact (IHlv _ eq_refl).
+    - exfalso. eapply inner_any_no_err. exact E1. }
+  match goal with |- obind ?m _ <> _ => destruct m eqn:E; cbn [obind]; try discriminate end.
+  exfalso. exact (K _ eq_refl).
+Qed.
+
+Theorem cmp_compare_no_err o neg lhs rhs e : is_unary o = false -> cmp_compare re (o, neg) lhs rhs <> Err e.
+Proof.
+  intros Hu. unfold cmp_compare. cbn [fst snd].
+  assert (Hop : forall e', op_compare re o lhs rhs <> Err e').
+  { intros e'. unfold op_compare. destruct lhs; [discriminate|]. destruct rhs; [discriminate|].
+    destruct o; try discriminate Hu;
+      match goal with |- obind ?m _ <> _ => destruct m eqn:E; cbn [obind]; try discriminate end; exfalso; revert E;
+      first [apply eq_compare_no_err | apply in_compare_no_err | apply common_compare_no_err]. }
+  destruct (op_compare re o lhs rhs) as [[|l]| | | |] eqn:E; cbn [obind]; try discriminate; [|exfalso; eapply Hop; reflexivity].
+  destruct neg; [|discriminate]. repeat no_err_step. apply negate_no_err.
+Qed.
+
+Lemma cmp_compare_not_skip o neg lhs rhs : lhs <> [] -> rhs <> [] -> cmp_compare re (o, neg) lhs rhs <> Done ESkip.
+Proof.
+  intros Hl Hr. unfold cmp_compare, op_compare. cbn [fst snd]. destruct lhs; [contradiction|]. destruct rhs; [contradiction|].
+  destruct o; cbn [obind]; try discriminate;
+    match goal with |- obind (obind ?m _) _ <> _ => destruct m; cbn [obind]; try discriminate end;
+    destruct neg; try discriminate; match goal with |- obind ?m _ <> _ => destruct m; cbn [obind]; discriminate end.
+Qed.
+
+(* the per-value checks of the documented semantics are never undefined: incomparable values FAIL *)
+Lemma smap_not_undef {A B} (f : A -> sres B) l : (forall x, f x <> SUndef) -> smap f l <> SUndef.
+Proof.
+  intros H. induction l as [|x l IH]; cbn; [discriminate|].
+  destruct (f x) eqn:E; cbn; try discriminate; [|exfalso; eapply H; exact E].
+  destruct (smap f l); cbn; try discriminate. contradiction.
+Qed.
+Lemma sflat_not_undef {A B} (f : A -> sres (list B)) l : (forall x, f x <> SUndef) -> sflat f l <> SUndef.
+Proof. intros H. unfold sflat. pose proof (smap_not_undef f l H). destruct (smap f l); cbn; try discriminate. contradiction. Qed.
+Lemma of_cmp_not_undef o neg : of_cmp o neg <> SUndef.
+Proof. destruct o as [b|[]| | |]; discriminate. Qed.
+
+Ltac nu_step :=
+  match goal with
+  | |- of_cmp _ _ <> SUndef => apply of_cmp_not_undef
+  | |- smap _ _ <> SUndef => apply smap_not_undef; intros
+  | |- sflat _ _ <> SUndef => apply sflat_not_undef; intros
+  | |- sbind ?m _ <> SUndef => let E := fresh "E" in destruct m eqn:E; cbn [sbind]; try discriminate
+  | |- SOk _ <> SUndef => discriminate
+  | |- SOut <> SUndef => discriminate
+  | |- (if ?c then _ else _) <> SUndef => destruct c
+  | |- match ?x with _ => _ end <> SUndef => destruct x
+  | H : of_cmp _ _ = SUndef |- _ => exfalso; revert H; apply of_cmp_not_undef
+  | H : smap _ _ = SUndef |- _ => exfalso; revert H; apply smap_not_undef; intros
+  | H : sflat _ _ = SUndef |- _ => exfalso; revert H; apply sflat_not_undef; intros
+  end.
+
+Lemma all_in_not_undef xs ys : all_in re xs ys <> SUndef.
+Proof. unfold all_in. induction xs as [|x xs IH]; cbn; [discriminate|]. destruct (contains_pv re ys x); try discriminate. match goal with |- sbind ?m _ <> _ => destruct m end; cbn; try discriminate. congruence. Qed.
+Lemma none_in_not_undef xs ys : none_in re xs ys <> SUndef.
+Proof. unfold none_in. induction xs as [|x xs IH]; cbn; [discriminate|]. destruct (contains_pv re ys x); try discriminate. match goal with |- sbind ?m _ <> _ => destruct m end; cbn; try discriminate. congruence. Qed.
+
+Lemma value_in_not_undef neg l r : value_in re neg l r <> SUndef.
+Proof.
+  unfold value_in. destruct l; destruct r; try apply of_cmp_not_undef; try discriminate;
+    try (destruct (contains_pv re _ _); discriminate).
+  destruct (match l0 with x :: _ => is_list x | [] => false end); [destruct (contains_pv re _ _); discriminate|].
+  destruct neg.
+  - pose proof (all_in_not_undef l l0). destruct (all_in re l l0) as [[|]| |]; cbn; try discriminate; try contradiction.
+    pose proof (none_in_not_undef l l0). destruct (none_in re l l0); cbn; try discriminate. contradiction.
+  - pose proof (all_in_not_undef l l0). destruct (all_in re l l0); cbn; try discriminate. contradiction.
+Qed.
+
+Lemma check_value_not_undef o neg x r : check_value re o neg x r <> SUndef.
+Proof.
+  unfold check_value. destruct x as [lit v|]; [|discriminate].
+  destruct o; cbn [ordering]; try discriminate; repeat nu_step;
+    try (match goal with H : value_in _ _ _ _ = SUndef |- _ => exfalso; revert H; apply value_in_not_undef end).
+Qed.
+
+Lemma check_literal_not_undef o neg l r : check_literal re o neg l r <> SUndef.
+Proof.
+  unfold check_literal. destruct o; cbn [ordering]; try discriminate; repeat nu_step;
+    try (match goal with H : value_in _ _ _ _ = SUndef |- _ => exfalso; revert H; apply value_in_not_undef end).
+Qed.
+
+Lemma spec_binary_not_undef o neg svals r : spec_binary o neg svals r <> SUndef.
+Proof.
+  unfold spec_binary. destruct svals as [|[[|] l|] [|y rest]]; try apply check_literal_not_undef;
+    apply sflat_not_undef; intros; apply check_value_not_undef.
+Qed.
+
+(* ------------------------------------------------------------------ *)
 (* unary operators *)
 
 Definition rel_ob (o : outcome bool) (x : sres bool) : Prop :=
